@@ -8,6 +8,13 @@ LEVEL_NOTE = ("Seeded search, not proof: a clean batch is evidence for the runs 
               "engine checks the external dsharp/maxsatz binaries shipped with the repository, which run as real code.")
 
 CLAIMED = {
+ "C11": dict(
+    technique="deterministic simulation: seeded histories of builder calls vs symbolic model with late-bound cells, truth tables after every call, invalid-call faults, ddmin replay",
+    text="Seeded histories of LogicFormula builder calls (add_atom incl. deterministic and AD-group atoms, add_and, add_or readonly/mutable, add_disjunct incl. positive "
+         "cycles, negate/add_not, add_name) under swarm-chosen options (auto_compact, keep_order, keep_duplicates, keep_all, avoid_name_clash, max_arity). Every key ever "
+         "returned is re-checked after every call: its truth table over all assignments of <= 4 atoms (alternating fixpoint for cyclic nodes) must equal that of the model "
+         "expression; invalid updates must raise ValueError and change nothing. Exploration level (bounded atoms and history length, sampled histories).",
+    design_ref="DESIGN.md §5 C11", quick_t=600, thorough_t=3000),
  "C29": dict(
     technique="deterministic simulation: seeded histories on a tree of ClauseDB extensions (extend / add / query), from-scratch refinement oracle, failing and alarm-interrupted adds as faults, ddmin replay",
     text="A generated program is split into a prepared base and extra clauses; seeded histories extend the base (also extensions of extensions), add the extra clauses "
